@@ -44,15 +44,28 @@ Histories == {ScF("P2", "tag_delete", "v2", "", TRUE, "import", "v2", "M2"), ScF
               ScF("P1", "put_tag", "v2", "M2", FALSE, "copy", "v2", "M2"), ScF("P1", "put_tag", "v2", "M2", FALSE, "import", "v2", "M2"),
               ScF("P1", "copy", "v2", "M2", TRUE, "import", "v2", "M2"), ScF("P1", "import", "v2", "M2", TRUE, "copy", "v2", "M2"),
               ScF("P2", "retag", "v2", "M1", TRUE, "import", "w", "M2")}
+\* quick tier: one fault
+FaultQ == {Sc("P1", "put_tag", "v2", "M1", FALSE), Sc("PX", "put_index", "ix2", "IX", FALSE), Sc("P1", "copy", "v2", "M1", TRUE),
+           Sc("P2", "put_tag", "v2", "M1", FALSE), Sc("P2", "tag_delete", "v2", "", TRUE)}
 \* copy of an index after a sweep that was killed between a child's blob and the child's manifest: the child is
 \* skipped because its manifest file exists (findings/C07-3.md) - counterexample of FollowOK / CrashStateOK expected
 GcThenCopy == {ScF("PX", "man_delete", "", "IX", TRUE, "copy", "ix", "IX"), ScF("PX", "tag_delete", "ix", "", TRUE, "copy", "ix", "IX")}
 Retags == {Sc("P2", "retag", "v3", "M1", FALSE), Sc("P2", "retag", "v2", "M1", TRUE)}
+\* the digest being written is already in the layout under another tag (second tag, copy / import of an image that is
+\* there, an index whose children are there, a child shared with an index)
+Shared == {Sc("P1", "put_tag", "v2", "M1", FALSE), Sc("PX", "put_index", "ix2", "IX", FALSE), Sc("P1", "copy", "v2", "M1", TRUE),
+           Sc("P1", "import", "v2", "M1", TRUE), Sc("PX", "put_child", "", "M1", FALSE)}
+\* interruption without death, up to two faults: the copies (goroutines: a cancelled context fails several blob
+\* tasks), the pushes onto shared digests, deletes with GC (the sweep after a failed index write)
+FaultSet == Shared \cup {Sc("E", "copy", "v1", "M1", TRUE), Sc("P1", "copy", "v2", "M2", TRUE), Sc("P2", "copy", "v1", "M2", TRUE),
+                         Sc("P2", "put_tag", "v2", "M1", FALSE), Sc("P1", "put_tag", "v1", "M1", TRUE), Sc("P2", "tag_delete", "v2", "", TRUE),
+                         Sc("P2", "man_delete", "", "M2", TRUE), Sc("P1", "import", "v2", "M2", TRUE), Sc("PR", "man_delete", "", "A1", TRUE),
+                         Sc("P1", "put_ref", "art", "A1", FALSE), Sc("PB", "retag", "c2", "IB", TRUE)}
 \* image copy with referrers: kept apart, its interrupted form is not repaired by a repetition (findings/C07-2.md)
 RefCopy == {Sc("E", "copy_ref", "v1", "M1", TRUE), Sc("P1", "copy_ref", "v1", "M1", TRUE)}
 RefCopyQ == {Sc("P1", "copy_ref", "v1", "M1", TRUE)}
 Main == FromEmpty \cup OneTag \cup TwoTags \cup WithIndex \cup WithReferrers \cup WithLeftovers \cup Retags \cup BadContent \cup Boundaries
-        \cup Shapes
+        \cup Shapes \cup Shared
 Populated == (OneTag \cup TwoTags \cup WithIndex \cup WithReferrers \cup WithLeftovers \cup Retags \cup BadContent \cup Boundaries
              \cup Shapes) \ {s \in BadContent \cup Boundaries \cup Shapes : s.start \in {"E", "E0"}}
 All == Main \cup RefCopy
